@@ -54,6 +54,7 @@ DoEdit(e) ==
   /\ \/ e = "drop_query_part"   /\ wire.ctype = "mixed" /\ wire' = [wire EXCEPT !.parts = SelectSeq(@, LAMBDA p : p.ctype # "form")]
      \/ e = "drop_body_part"    /\ wire.ctype = "mixed" /\ wire' = [wire EXCEPT !.parts = SelectSeq(@, LAMBDA p : p.ctype # "json")]
      \/ e = "unknown_part_type" /\ wire.ctype = "mixed" /\ wire' = [wire EXCEPT !.parts[2].ctype = "other"]
+     \/ e = "extra_unknown_part" /\ wire.ctype = "mixed" /\ wire' = [wire EXCEPT !.parts = Append(@, [ctype |-> "other", query |-> <<>>, json |-> NoBody])]
      \/ e = "empty_query_part"  /\ wire.ctype = "mixed" /\ wire' = [wire EXCEPT !.parts[1].query = <<>>]
      \/ e = "override_with_url_query" /\ wire' = [wire EXCEPT !.urlq = <<"a">>]
      \/ e = "unknown_top_type"  /\ wire' = [wire EXCEPT !.ctype = "other"]
